@@ -242,6 +242,7 @@ TEMPLATES_QUICK = [
     ['pub', 'pub', 'pull', 'nack', 'pull'],
     ['pub', 'pub', 'pull', 'ack', 'prune_completed', 'pull'],
     ['pub', 'pull', 'ack', 'pub', 'seek0', 'pub', 'pull'],
+    ['pub', 'pub', 'pull', 'ack', 'pull', 'ack', 'seek0', 'pull'],
 ]
 TEMPLATES_THOROUGH = TEMPLATES_QUICK + [
     ['pub', 'pub', 'pub', 'pull', 'ack', 'pull', 'ack', 'pull'],
@@ -272,13 +273,21 @@ def main():
             # every clock reading), so that the real clock's jitter cannot flip a comparison in the replay
             ex.env['small_model'] = [z3.BoolVal(True)]
 
-            def margins(ex_, db=db):
+            def margins(ex_, gap=None, db=db, s=s, trace=trace):
+                nows = stdlib.clock(ex_)['nows']
+                if gap is None:
+                    # first choice: long retention and clock advances of one to two minutes: nothing expires by retention at all
+                    out = [s.v['message_ttl'] >= 1800 * 10**9]
+                    for _, g in trace.gaps:
+                        out.append(z3.Or(g <= 10**6, z3.And(g >= 60 * 10**9, g <= 120 * 10**9)))
+                    return out
+                # second choice (the violation needs an expiry): every deadline a second away from every clock reading, or exactly a reading
                 out = []
-                for n in stdlib.clock(ex_)['nows']:
+                for n in nows:
                     for d in db.t['Delivery']:
                         for c in ('expires_at', 'attempt_at'):
                             if is_sym(d.v[c]) or is_sym(n):
-                                out.append(z3.Or(d.v[c] - n >= 10**9, n - d.v[c] >= 10**9))
+                                out.append(z3.Or(z3.Or(*[d.v[c] == n2 for n2 in nows]), d.v[c] - n >= 10**9, n - d.v[c] >= 10**9))
                 return out
             ex.env['replay_margins'] = margins
             keys = []
@@ -365,13 +374,19 @@ def known_pred(pred, m, desc):
 def concretize_ops(m, trace, keys):
     ops = []
     gaps = {i: replay.mval(m, g) for i, g in trace.gaps}
+    newidx = {}
     for i, op in enumerate(trace.ops):
         if i in gaps and gaps[i] >= 60 * 10**9:
             ops.append({'op': 'shift', 'delta': str(gaps[i])})
+        newidx[i] = len(ops)
         o = {}
         for k, v in op.items():
             o[k] = replay.mval(m, v) if is_sym(v) else v
         ops.append(o)
+    # "$<op index>.<k>" references (ack / nack of the k-th delivery of an earlier pull) follow the inserted clock shifts
+    for o in ops:
+        if isinstance(o.get('ids'), list):
+            o['ids'] = ['$%d.%s' % (newidx[int(x[1:].split('.')[0])], x.split('.')[1]) if isinstance(x, str) and x.startswith('$') else x for x in o['ids']]
     return ops
 
 
